@@ -78,7 +78,15 @@ pub mod conv {
     }
     impl ToValue for BitVec {
         fn to_value(&self) -> Value {
-            Value::Bits(vbase::refbits::unpack_n(self.as_byte_slice(), self.bit_len() as usize))
+            let n = self.bit_len() as usize;
+            let bytes = self.as_byte_slice();
+            // a BitVec compares (==) with its whole last octet: non-zero bits behind bit_len, or octets beyond the
+            // last one, make two "equal" bit strings differ for the user. Such a value maps to no abstract value.
+            let all = vbase::refbits::unpack(bytes);
+            if all.len() > n && all[n..].iter().any(|b| *b) || bytes.len() > (n + 7) / 8 {
+                return Value::Choice(usize::MAX, Box::new(Value::Bits(all)));
+            }
+            Value::Bits(vbase::refbits::unpack_n(bytes, n))
         }
     }
     // OCTET STRING and SEQUENCE OF INTEGER(0..255) share Vec<u8>: both value forms are accepted,
